@@ -43,6 +43,7 @@ type casRoot struct {
 	PauseNs int  `json:"pause,omitempty"`
 	Scope   int  `json:"scope,omitempty"`             // index into the plan's scopes (0 = default scope)
 	Late    bool `json:"set_after_monitor,omitempty"` // the fail-on-first-error setting gets its final value after the root monitor was created
+	LateHandler bool `json:"late_finish_handler,omitempty"` // (AddEvent only) the finish handler is attached after AddEvent returned, while the cascade is still running
 }
 
 type casPlan struct {
@@ -222,6 +223,9 @@ func casGen(r *simrt.RNG, tier string) interface{} {
 				k = r.Intn(p.NKinds)
 			}
 			ro := casRoot{Kind: k, Wait: r.Bool(0.7), PauseNs: r.Intn(20)}
+			if !ro.Wait && r.Bool(0.25) {
+				ro.LateHandler = true
+			}
 			if len(p.Scopes) > 0 {
 				ro.Scope = r.Intn(len(p.Scopes) + 1)
 			}
@@ -374,6 +378,11 @@ type casCascade struct {
 	rootEvent  int
 	addingRoot bool
 	scope      map[string]bool // nil = default scope {"": true}
+	// late finish handler: the first action of the root event waits until the handler is set
+	lateHandler bool
+	handlerSet  bool
+	hmu         simsync.Mutex
+	hcond       *simsync.Cond
 }
 
 type casState struct {
@@ -437,6 +446,13 @@ func (st *casState) action(ri int) engine.RuleAction {
 			simrt.Fail("oracle:foreign-event", "foreign-event", "rule %s fired for an event the harness never added: %v", ru.Name, ev)
 		}
 		e := st.events[id]
+		if cas := st.cascades[e.root]; cas.lateHandler {
+			cas.hmu.Lock()
+			for !cas.handlerSet {
+				cas.hcond.Wait()
+			}
+			cas.hmu.Unlock()
+		}
 		if e.kind != ru.Kind {
 			simrt.Fail("oracle:wrong-rule", "wrong-rule", "rule %s (kind k%d) fired for event %d of kind k%d", ru.Name, ru.Kind, id, e.kind)
 		}
@@ -484,7 +500,7 @@ func (st *casState) action(ri int) engine.RuleAction {
 		}
 		if ru.Nested > 0 {
 			simrt.Count("fault_nested_wait_in_action")
-			st.addRoot(p, ru.Nested, true, 0, false)
+			st.addRoot(p, ru.Nested, true, 0, false, false)
 		}
 		if ru.SampleHP && st.prop == "C10" {
 			st.sampleHP(e, m)
@@ -592,7 +608,7 @@ func (st *casState) sampleHPAtomic(e *casEvent, m engine.Monitor) {
 
 // addRoot starts a new cascade with a root event of the given kind (from a client
 // task, or - nested wait - from inside a rule action on a worker).
-func (st *casState) addRoot(proc engine.Processor, kind int, wait bool, scopeIdx int, late bool) {
+func (st *casState) addRoot(proc engine.Processor, kind int, wait bool, scopeIdx int, late bool, lateHandler bool) {
 	cas := &casCascade{id: len(st.cascades), waited: wait}
 	st.cascades = append(st.cascades, cas)
 	var rs *engine.RuleScope
@@ -612,7 +628,8 @@ func (st *casState) addRoot(proc engine.Processor, kind int, wait bool, scopeIdx
 		proc.SetFailOnFirstErrorInTriggerSequence(st.p.FailFirst)
 	}
 	cas.rm = rm
-	rm.SetFinishHandler(func(engine.Processor) {
+	cas.hcond = simsync.NewCond(&cas.hmu)
+	handler := func(engine.Processor) {
 		cas.finished++
 		if cas.finished > 1 {
 			simrt.Fail("oracle:finish-twice", "finish-twice", "finish handler of cascade %d ran %d times", cas.id, cas.finished)
@@ -626,7 +643,11 @@ func (st *casState) addRoot(proc engine.Processor, kind int, wait bool, scopeIdx
 		} else {
 			_ = cas.rm.AllErrors()
 		}
-	})
+	}
+	lateHandler = lateHandler && !wait
+	if !lateHandler {
+		rm.SetFinishHandler(handler)
+	}
 	e := st.newEvent(kind, cas.id, -1)
 	e.mon = rm
 	cas.rootEvent = e.id
@@ -645,7 +666,17 @@ func (st *casState) addRoot(proc engine.Processor, kind int, wait bool, scopeIdx
 		st.afterAdd(e, res, err)
 		st.checkCascadeAtReturn(cas)
 	} else {
+		cas.lateHandler = lateHandler
 		st.add(proc, e, rm)
+		if lateHandler {
+			// the cascade is still running (its first action waits for this)
+			simrt.Count("fault_finish_handler_attached_late")
+			rm.SetFinishHandler(handler)
+			cas.hmu.Lock()
+			cas.handlerSet = true
+			cas.hcond.Broadcast()
+			cas.hmu.Unlock()
+		}
 	}
 }
 
@@ -712,7 +743,7 @@ func casRun(p *casPlan, prop string) {
 				if ro.PauseNs > 0 {
 					simtime.Sleep(simtime.Duration(ro.PauseNs))
 				}
-				st.addRoot(proc, ro.Kind, ro.Wait, ro.Scope, ro.Late)
+				st.addRoot(proc, ro.Kind, ro.Wait, ro.Scope, ro.Late, ro.LateHandler)
 			}
 		})
 	}
@@ -856,7 +887,13 @@ func (st *casState) checkEnd() {
 		root := st.events[cas.rootEvent]
 		if st.prop == "C02" {
 			st.checkComplete(cas, "end of run (quiescent)")
-			if !root.skipped && cas.finished != 1 {
+			if cas.lateHandler && len(root.actions) == 0 {
+				// nothing of the cascade waited for the handler to be attached (no rule of the root
+				// event was in scope): it may have finished before the handler existed
+				if cas.finished > 1 {
+					simrt.Fail("oracle:finish-twice", "finish-twice", "finish handler of cascade %d ran %d times", cas.id, cas.finished)
+				}
+			} else if !root.skipped && cas.finished != 1 {
 				simrt.Fail("oracle:finish-count", "finish-count", "finish handler of cascade %d ran %d times, want exactly once", cas.id, cas.finished)
 			}
 			for _, e := range st.events {
